@@ -116,7 +116,7 @@ func genC09Store(rt *rapid.T, kind lib.StoreKind) []lib.Pair {
 		var v string
 		switch kind {
 		case lib.KInt:
-			v = rapid.SampledFrom([]string{"1", "11", "2", "0", "1", "-1"}).Draw(rt, "vi")
+			v = rapid.SampledFrom([]string{"1", "11", "2", "0", "1", "-1", "010", "025", "008"}).Draw(rt, "vi")
 		case lib.KFloat:
 			// two values that agree in six decimals are different values
 			v = rapid.SampledFrom([]string{"1.5", "0.5", "2", "1.5", "0.25", "0.1234561", "0.1234562", "2.0000001"}).Draw(rt, "vf")
